@@ -18,7 +18,7 @@ type countDef struct {
 }
 
 func (c *Ctx) specCtx(pkg *PkgInfo, st, old *State, vars map[string]Value) *Ctx {
-	n := &Ctx{x: c.x, st: st, fr: c.fr, spec: true, old: old, pkg: pkg}
+	n := &Ctx{x: c.x, st: st, fr: c.fr, spec: true, old: old, pkg: pkg, assuming: c.assuming}
 	n.vars = map[string]Value{}
 	for k, v := range vars {
 		n.vars[k] = v
@@ -240,6 +240,52 @@ func (c *Ctx) specCall(name string, e *ast.CallExpr) (Value, bool) {
 		return Scalar(Select(arr, k.S), boolT), true
 	case "clock":
 		return Scalar(x.ghostInt(c.st, clockKey), types.Typ[types.Int]), true
+	case "fresh":
+		// fresh(v): v was allocated by this function.  Proved: v is one of the objects allocated on
+		// this path.  Assumed (at a call site): v differs from every reference the caller's state held
+		// before the call.
+		v := c.eval(e.Args[0])
+		if v.Kind != KScalar || v.S.Sort != SRef {
+			panic(engineErr("fresh(v): v is not a reference"))
+		}
+		if c.assuming {
+			if c.old == nil {
+				panic(engineErr("fresh(v) needs the state before the call"))
+			}
+			return Scalar(And(Neq(v.S, Nil), freshTerm(v.S, c.old.store)), boolT), true
+		}
+		var alts []*Term
+		for _, r := range x.freshRefs {
+			alts = append(alts, Eq(v.S, r))
+		}
+		return Scalar(Or(alts...), boolT), true
+	case "as":
+		// as(T, v): the reference v viewed as a pointer to the package's struct type T (a checked
+		// downcast in Go; here only a change of the static type used to resolve field names)
+		id, ok := e.Args[0].(*ast.Ident)
+		if !ok || len(e.Args) != 2 {
+			panic(engineErr("as(T, v): type name and value expected"))
+		}
+		o := c.pkg.P.Types.Scope().Lookup(id.Name)
+		if o == nil {
+			panic(engineErr("as(%s, ...): unknown type", id.Name))
+		}
+		v := c.eval(e.Args[1])
+		if v.Kind != KScalar || v.S.Sort != SRef {
+			panic(engineErr("as(%s, v): v is not a reference", id.Name))
+		}
+		return Scalar(v.S, types.NewPointer(o.Type())), true
+	case "decoded":
+		// decoded(T): the object of struct type T filled by the most recent gob Decode
+		id, ok := e.Args[0].(*ast.Ident)
+		if !ok {
+			panic(engineErr("decoded(T): type name expected"))
+		}
+		o := c.pkg.P.Types.Scope().Lookup(id.Name)
+		if o == nil {
+			panic(engineErr("decoded(%s): unknown type", id.Name))
+		}
+		return Scalar(x.ghostInt(c.st, decodedKey), types.NewPointer(o.Type())), true
 	case "deadline", "chanlen", "chanval", "chancap":
 		key := map[string]string{"deadline": deadlineKey, "chanlen": chanLenKey, "chanval": chanValKey, "chancap": chanCapKey}[name]
 		r := c.eval(e.Args[0])
